@@ -21,13 +21,13 @@ META = dict(
     level='proof',
     technique='Coq proof about a model of print_xact\'s per-posting decisions, of the reader on such lines and of posts_as_equity (print shows what was written; re-read of an exactly balanced transaction is accepted with the same exact amounts and costs; the two-posting elision happens only when both postings must balance and is then sound; print never fails; posting marks bring the state back; per-unit and total costs re-read to the same total; printing twice is stable; equity reproduces per-account per-commodity sums) + differential correspondence against ledger + implementation-only round-trip oracle',
     level_text='Theorems in coq/Properties/Properties_C06.v are stated for Model/Print.v: `decide` (post_has_simple_amount, the count == 2 && index == 2 elision, POST_CALCULATED / ITEM_GENERATED suppression, the @ / @@ choice with the printed per-unit cost |given_cost / amount|, state marks, bare 0 for a display-zero amount, read_back = amount_t::print then amount_t::parse at display precision with zero trimming), `reread` (what parse_post makes of such a line) followed by Model/Xact.v `finalize`, and `equity_account`. The model is tied to the code by tokenizing ledger\'s print output into the same decision records and by comparing finalize of the original and of the re-read printed text (exact rationals via the verif_rational hook).',
-    level_note='Trusted: Coq kernel; the MPFR display rounding model Base/Round.v (validated by C04); extraction/driver/harness for the correspondence. Of the layout only the rule that separates account and amount is modelled (account column = max(36, longest printed name), amount right-justified in 12, gap topped up to two blanks; account_width / sep_blanks / posting_blanks, theorem print_separates_account_and_amount) and compared with the raw bytes of every printed posting line; note placement and blank lines are covered by the byte-identity oracle print(print J) == print J only. Amount text <-> amount value is C04\'s subject (AmountText.v); here an amount is printed as the value the reader gets back (read_back). Not modelled: amount expressions `(expr)`, --generated, automated/periodic transactions in print, metadata set programmatically (print.cc:172-183), value-expression annotations, commodity styles beyond prefix/suffix, the iteration order of accounts in equity. Known findings still listed: F8 (zero amount printed as bare 0), F29 (re-read rejected after the commodity precision grew), F30 (equity rounds an inferred amount to display precision), F31 (all-zero transaction not printed). Repaired in /repo and now enforced as violations by the oracle: virtual-pair elision (bcb53b0, old F7), posting mark under a marked transaction (294def6, old F27), zero amount with a per-unit cost (c386080, old F28).',
+    level_note='Trusted: Coq kernel; the MPFR display rounding model Base/Round.v (validated by C04); extraction/driver/harness for the correspondence. Of the layout only the rule that separates account and amount is modelled (account column = max(36, longest printed name), amount right-justified in 12, gap topped up to two blanks; account_width / sep_blanks / posting_blanks, theorem print_separates_account_and_amount) and compared with the raw bytes of every printed posting line; note placement and blank lines are covered by the byte-identity oracle print(print J) == print J only. Amount text <-> amount value is C04\'s subject (AmountText.v); here an amount is printed as the value the reader gets back (read_back). Not modelled: amount expressions `(expr)`, --generated, automated/periodic transactions in print, metadata set programmatically (print.cc:172-183), value-expression annotations, commodity styles beyond prefix/suffix, the iteration order of accounts in equity. Known findings still listed: F8 (zero amount printed as bare 0), F29 (re-read rejected after the commodity precision grew), F30 (equity rounds an inferred amount to display precision), F31 (all-zero transaction not printed), F135 (the roundings of two printed balance assignments on one account add up and the second printed assertion is rejected). Repaired in /repo and now enforced as violations by the oracle: virtual-pair elision (bcb53b0, old F7), posting mark under a marked transaction (294def6, old F27), zero amount with a per-unit cost (c386080, old F28).',
     design_ref='DESIGN.md section 7 C06',
     assumptions=['the posting finalize infers for a single posting under a bucket directive is part of every comparison (rows with states, print decisions, layout)',
                  'journals accepted by ledger (a journal with any error is outside the quantifier; erroneous transactions are dropped by the generator)',
                  'commodities $ EUR AAA BBB CCC without thousands marks or decimal comma (C04 covers styles)',
                  'payees start with x<N>; account, payee, code and note text avoid `|`, `[`, a leading `(`/`[` and two consecutive blanks before `;`',
-                 'balance assignments only on dedicated accounts whose running total the generator tracks',
+                 'balance assignments only on dedicated accounts whose running total the generator tracks; the amount ledger computes for one is handed to the model (it teaches the pool nothing), the re-read printed journal is decided by the assertion journal loop of Model/Assert.v',
                  'equity: amounts written at or below the commodity precision (hypothesis of equity_reproduces_balances)'],
 )
 
@@ -110,7 +110,8 @@ class XPost(X.Post):
                 [self.cost[0], self.cvirt] + self.cost[1].sx() if self.cost else '-',
                 self.lot.sx() if self.lot else '-',
                 {'': 'U', '*': 'C', '!': 'P'}[self.mark],
-                self.assigned.sx() if self.assigned else '-']
+                self.assigned.sx() if self.assigned else '-',
+                self.amt is None and self.computed is not None]
 
 
 class XXact:
@@ -221,24 +222,49 @@ def two_post(rng, st):
     return XXact(ps)
 
 
-def gen_assign(rng, st):
-    """balance assignment / assertion on a dedicated account whose running total is tracked"""
-    acct = rng.choice(['Assets:Asg1', 'Assets:Asg2'])
+def gen_assign(rng, st, acct=None):
+    """balance assignment / assertion on a dedicated account whose running total is tracked; the total may carry a
+    residue below the display precision (gen_residue): the computed amount is then printed rounded"""
+    acct = acct or rng.choice(['Assets:Asg1', 'Assets:Asg2'])
     prev = st['asg'].get(acct, F(0))
-    if rng.random() < 0.6:
-        target = prev + F(rng.randrange(1, 99999) * rng.choice([1, -1]), 100)
-        p = XPost(acct, 'R', None, assigned=X.Amt(target, 2, '$'), computed=X.Amt(target - prev, 2, '$'))
+    pdec = st.setdefault('asgdec', {}).get(acct, 2)
+    base = F(round(prev * 100), 100)                          # targets are written with two decimals
+    if rng.random() < 0.6 or pdec > 2:
+        target = base + F(rng.randrange(1, 99999) * rng.choice([1, -1]), 100)
+        p = XPost(acct, 'R', None, assigned=X.Amt(target, 2, '$'), computed=X.Amt(target - prev, max(2, pdec), '$'))
         st['asg_next'] = (acct, target)
+        st['asgdec_next'] = 2 if target - prev == F(round((target - prev) * 100), 100) else pdec
     else:
         d = F(rng.randrange(1, 9999) * rng.choice([1, -1]), 100)
         p = XPost(acct, 'R', X.Amt(d, 2, '$'), assigned=X.Amt(prev + d, 2, '$'))
         st['asg_next'] = (acct, prev + d)
-    other = XPost(rng.choice(X.ACCTS), 'R', None) if rng.random() < 0.7 else \
+        st['asgdec_next'] = pdec
+    other = XPost(rng.choice(X.ACCTS), 'R', None) if (rng.random() < 0.7 or pdec > 2) else \
         XPost(rng.choice(X.ACCTS), 'R', X.Amt(-(p.model_amt().value), 2, '$'))
     ps = [p, other]
     if rng.random() < 0.3:
         ps.reverse()
     return XXact(ps)
+
+
+def gen_residue(rng, st):
+    """a purchase at a per-unit price with 3 or 4 decimals whose cash leg is elided on an assignment account: the
+    account's running total then carries digits below the two decimals `$` is displayed with"""
+    acct = rng.choice(['Assets:Asg1', 'Assets:Asg2'])
+    prev = st['asg'].get(acct, F(0))
+    units = rng.choice([1, 3, 3, 5, 7, 15, 25, rng.randrange(1, 60)]) * rng.choice([1, 1, -1])
+    dec = rng.choice([3, 3, 4])
+    price = F(rng.randrange(10 ** (dec - 1), 10 ** (dec + 2)), 10 ** dec)
+    p = XPost('Assets:Broker:X', 'R', X.Amt(F(units), 0, rng.choice(['AAA', 'CCC'])), ('u', X.Amt(price, dec, '$')))
+    st['asg_next'] = (acct, prev - units * price)
+    st['asgdec_next'] = max(st.setdefault('asgdec', {}).get(acct, 2), dec)
+    st['follow_up'] = acct                       # an assignment on this account soon after
+    ps = [p, XPost(acct, 'R', None)]
+    if rng.random() < 0.3:
+        ps.reverse()
+    x = XXact(ps)
+    x.keep_cost_marks = True
+    return x
 
 
 def gen_zero_cost(rng, st):
@@ -421,8 +447,10 @@ def gen_xact(rng, st):
         x = upgrade(X.gen_lot(rng))
     elif r < 0.86:
         x = gen_lot_cost(rng, st)
-    elif r < 0.935:
+    elif r < 0.89:
         x = gen_assign(rng, st)
+    elif r < 0.935:
+        x = gen_residue(rng, st)
     elif r < 0.94:
         x = gen_zero_cost(rng, st)
     else:
@@ -460,7 +488,10 @@ def gen_journal(rng):
         xs.root = rng.choice([None, None, 'Root', 'Personal:Y 2021'])
     for _ in range(rng.randrange(3, 11)):
         st.pop('asg_next', None)
-        x = gen_single(rng, st) if (xs.bucket and rng.random() < 0.35) else gen_xact(rng, st)
+        if st.get('follow_up') and rng.random() < 0.6:
+            x = decorate(rng, gen_assign(rng, st, st.pop('follow_up')))
+        else:
+            x = gen_single(rng, st) if (xs.bucket and rng.random() < 0.35) else gen_xact(rng, st)
         x.bucket = xs.bucket
         for p in x.posts:
             p.root = xs.root
@@ -468,6 +499,7 @@ def gen_journal(rng):
         if 'asg_next' in st:
             x.asg = st['asg_next']
             st['asg'][x.asg[0]] = x.asg[1]
+            st.setdefault('asgdec', {})[x.asg[0]] = st.pop('asgdec_next', 2)
     return xs
 
 
@@ -681,6 +713,24 @@ def zero_amount_style_lost(xs, t1, t2):
     lost = zero - taught
     l1, l2 = t1.split('\n'), t2.split('\n')
     return bool(lost) and len(l1) == len(l2) and all(a == b or any(c in a for c in lost) for a, b in zip(l1, l2))
+
+
+def residue_assignments(xs):
+    """how many balance assignments / assertions follow, on one account, a posting that left a residue below the display
+    precision there (an elided leg of a per-unit cost with more decimals): each printed assignment rounds once more"""
+    best = 0
+    for acct in set(p.acct for x in xs for p in x.posts if p.assigned is not None):
+        seen, n = False, 0
+        for x in xs:
+            for p in x.posts:
+                if p.acct != acct:
+                    continue
+                if p.assigned is not None and seen:
+                    n += 1
+                elif p.amt is None and p.assigned is None and any(q.cost and q.cost[1].dec > X.COMMS[q.cost[1].sym][1] for q in x.posts):
+                    seen = True
+        best = max(best, n)
+    return best
 
 
 def differs_by_padding_only(t1, t2):
@@ -985,15 +1035,23 @@ def run_one(ctx, res, j, xs, text, path, out_reg, model, layout_cases, idem_case
                 idem_cases.append((text, P2 == P, mod_same, pad_lines, [(i, mm.get((i, 'I'))) for i in range(len(xs))]))
     # ---- oracle 1: the rows of J equal the rows of the re-read print
     nontrivial = False
+    jpool = {}                                   # display precision per commodity: the most decimals written in a posting amount
+    for x in xs:
+        for p in x.posts:
+            for a in (p.amt, p.assigned):
+                if a is not None and a.sym:
+                    jpool[a.sym] = max(jpool.get(a.sym, 0), a.dec)
     if not reread_ok:
         virt_pair = any(len(x.posts) == 2 and all(p.kind == 'V' and p.amt is not None for p in x.posts) for x in xs)
         msg = err2.decode('utf-8', 'replace')
         cls = 'NullLeft' if 'There cannot be null amounts after balancing' in msg else \
-            'Unbalanced' if 'does not balance' in msg else 'TwoNulls' if 'Only one posting with null amount' in msg else 'Other'
+            'Unbalanced' if 'does not balance' in msg else 'TwoNulls' if 'Only one posting with null amount' in msg else \
+            'AssertOff' if 'Balance assertion off by' in msg else 'Other'
         inexact = any(p.cost and p.cost[0] == 'u' and p.cost[1].dec > X.COMMS[p.cost[1].sym][1] for x in xs for p in x.posts)
         res.violations.append(dict(
             key='reread-fails:' + cls + (':virtual-pair-elided' if (virt_pair and cls == 'NullLeft') else '') +
-                (':display-zero-residual-under-grown-precision' if (inexact and cls == 'Unbalanced') else ''),
+                (':display-zero-residual-under-grown-precision' if (inexact and cls == 'Unbalanced') else '') +
+                (':accumulated-assignment-residues' if (cls == 'AssertOff' and residue_assignments(xs) >= 2) else ''),
             desc='the text printed for an accepted journal is not accepted: %s' % msg[-300:],
             case=dict(journal=text, printed=Ptext), observed=msg[-300:], required='accepted'))
         res.count('reread-fails:' + cls)
@@ -1016,8 +1074,11 @@ def run_one(ctx, res, j, xs, text, path, out_reg, model, layout_cases, idem_case
                     va, vb = ra[fld], rb[fld]
                     if (va and va[:2]) != (vb and vb[:2]):
                         # an amount computed from a balance assignment need only agree to display precision
-                        asg = any(p.assigned is not None and p.amt is None and p.full() == ra['acct'] for p in x.posts)
-                        if asg and va and vb and va[0] == vb[0] and abs(va[1] - vb[1]) * 2 <= F(1, 10 ** X.COMMS.get(va[0], ('', 2))[1]):
+                        # (so does the elided leg that balances it in the same transaction)
+                        has_asg = any(p.assigned is not None and p.amt is None for p in x.posts)
+                        asg = has_asg and any((p.amt is None) and p.full() == ra['acct'] for p in x.posts)
+                        if asg and va and vb and va[0] == vb[0] and abs(va[1] - vb[1]) * 2 <= F(1, 10 ** jpool.get(va[0], 0)):
+                            res.count('assigned-amount-to-display-precision')
                             continue
                         res.violations.append(dict(key=classify_row_diff('amt', va, vb) if fld == 'amt' else
                                                    ('reread-rows:zero-amount-commodity-lost' if (va and vb and va[1] == 0 and vb[1] == 0) else
@@ -1136,7 +1197,7 @@ def run(ctx, n_override=None):
     res.rule = ('accepted journals of 3-10 transactions: two-posting shapes around the elision (real, [balanced], (virtual) pairs, '
                 'different written precision, equal lots, first/second elided in the source, costs, implied rate, zero amounts), exactly '
                 'balanced multi-commodity transactions with @/@@/(@) costs and virtual postings, one elided amount, excess-precision per-unit '
-                'costs at the half-unit boundary, lot sales with {price} [date] (tag), postings with both a lot price and a written cost (@ / @@ / (@) / (@@), equal to or different from lot price x quantity, sales and purchases), balance assignments/assertions, `0 X @ price`; in 30% of the journals a bucket directive (`A`, `bucket`, `account` + `default`; a third of them inside `apply account ROOT`) with single-posting transactions marked `*`/`!` on the header and/or the posting, real, [balanced] or (virtual), with or without a cost; '
+                'costs at the half-unit boundary, lot sales with {price} [date] (tag), postings with both a lot price and a written cost (@ / @@ / (@) / (@@), equal to or different from lot price x quantity, sales and purchases), balance assignments/assertions, also on accounts whose running total carries a residue below the display precision (an elided leg of a per-unit cost with 3 or 4 decimals, followed by an assignment on that account), `0 X @ price`; in 30% of the journals a bucket directive (`A`, `bucket`, `account` + `default`; a third of them inside `apply account ROOT`) with single-posting transactions marked `*`/`!` on the header and/or the posting, real, [balanced] or (virtual), with or without a cost; '
                 'account names of 30..45 characters placed around the account column of print (column-3 .. column+0, the longest at the column) with amounts of 9..14 and more characters, so that every gap 0..3 between name and amount occurs; decorated with states on transactions and postings (also a posting mark that differs from the mark of its transaction), codes, auxiliary dates, notes, tags, key: value metadata and unusual '
                 'payee/account text; non-trivial = a transaction with at least one such feature in a journal whose printed text re-reads; '
                 'distinct by rendered transaction text')
@@ -1226,7 +1287,28 @@ def replay(ctx, obj):
             r1, r2 = parse_rows(out1), parse_rows(out2)
             sig = lambda rows: [[(r['acct'], r['virtual'], r['cleared'], r['pending'], show_kq(r['amt']), show_kq(r['cost'])) for r in rows[i]]
                                 for i in sorted(rows)]
-            if sig(r1) != sig(r2):
+            # transactions with a balance assignment (`ACCT  = AMOUNT`, no amount of its own): their computed amounts need only
+            # agree to the display precision of the printed text
+            assigning = set()
+            cur = None
+            for l in case['journal'].split('\n'):
+                if l and not l.startswith(' '):
+                    m = re.search(r'\bx(\d+)', l)
+                    cur = int(m.group(1)) if m else None
+                elif cur is not None and re.match(r'\s+(?:[*!] )?\S(?:[^;]*?\S)?(?:\s{2,}|\t)=\s', l):
+                    assigning.add(cur)
+
+            def close(i, a, b):
+                if a == b:
+                    return True
+                if i not in assigning or a['acct'] != b['acct'] or not a['amt'] or not b['amt'] or a['amt'][0] != b['amt'][0]:
+                    return False
+                tol = F(1, 2 * 10 ** b['amt'][2])
+                return abs(a['amt'][1] - b['amt'][1]) <= tol and (a['cleared'], a['pending'], a['virtual']) == (b['cleared'], b['pending'], b['virtual'])
+            same = sorted(r1) == sorted(r2) and all(len(r1[i]) == len(r2[i]) and all(
+                close(i, a, b) or (a['acct'], a['virtual'], a['cleared'], a['pending'], show_kq(a['amt']), show_kq(a['cost'])) ==
+                (b['acct'], b['virtual'], b['cleared'], b['pending'], show_kq(b['amt']), show_kq(b['cost'])) for a, b in zip(r1[i], r2[i])) for i in r1)
+            if not same:
                 diff = [(a, b) for a, b in zip(sum(sig(r1), []), sum(sig(r2), [])) if a != b][:4]
                 print('rows differ:', diff)
                 res.violations.append(dict(key='replay-rows', desc='the re-read rows differ from the original: %s' % diff, case=case,
